@@ -98,6 +98,7 @@ func (fx *fctx) exec(st *State, s ast.Stmt) *State {
 		if s.Else != nil && !s2.dead {
 			s2 = fx.exec(s2, s.Else)
 		}
+		fx.settleDirty([]*State{s1, s2}, s)
 		return e.merge([]*State{s1, s2})
 	case *ast.ReturnStmt:
 		return fx.execReturn(st, s)
@@ -219,7 +220,7 @@ func (fx *fctx) readLval(st *State, lv *lval, n ast.Node) *Value {
 		e.unsup(n, "read of blank")
 	}
 	if lv.addr != nil {
-		return e.loadCell(st, lv.key, lv.addr, lv.t)
+		return fx.loadLval(st, lv)
 	}
 	cur := st.vars[lv.v]
 	if cur == nil {
@@ -590,6 +591,9 @@ func (fx *fctx) execLoop(st *State, s ast.Stmt, cond func(*State) *Term, body fu
 		}
 		return b
 	}
+	preSnap := st.clone()
+	fx.loopPre = append(fx.loopPre, preSnap)
+	defer func() { fx.loopPre = fx.loopPre[:len(fx.loopPre)-1] }()
 	evalInv := func(stt *State, cl *Clause) *Term {
 		return fx.evalClause(stt, fx.entry, cl, bindAt(stt))
 	}
@@ -679,27 +683,46 @@ func (fx *fctx) execLoop(st *State, s ast.Stmt, cond func(*State) *Term, body fu
 	fx.runHooks(bodySt, "loopbegin", ord, "", s, nil)
 	end := body(bodySt)
 	fx.jumps = fx.jumps[:len(fx.jumps)-1]
-	conts := append([]*State{end}, jf.conts...)
-	back := e.merge(conts)
-	if !back.dead {
+	var backs []*State
+	splitMode := false
+	for _, c := range jf.conts {
+		if c.label != "" {
+			splitMode = true
+		}
+	}
+	if splitMode {
+		backs = append(backs, end)
+		backs = append(backs, jf.conts...)
+	} else {
+		backs = []*State{e.merge(append([]*State{end}, jf.conts...))}
+	}
+	for _, back := range backs {
+		if back == nil || back.dead {
+			continue
+		}
+		savedLabel := fx.caseLabel
+		if back.label != "" {
+			fx.caseLabel = back.label
+		}
 		fx.runHooks(back, "loopend", ord, "", s, nil)
 		if post != nil {
 			back = post(back)
 		}
-	}
-	// 4. preservation
-	if !back.dead {
-		if lc != nil {
-			for _, cl := range lc.Invariants {
-				g := evalInv(back, cl)
-				fx.assert(back, tag+"/inv-pres", fmt.Sprint(cl.Ord), g, s, propsOr(cl.Props, fx.props), "invariant preserved: "+cl.Text)
+		// 4. preservation
+		if !back.dead {
+			if lc != nil {
+				for _, cl := range lc.Invariants {
+					g := evalInv(back, cl)
+					fx.assert(back, tag+"/inv-pres", fmt.Sprint(cl.Ord), g, s, propsOr(cl.Props, fx.props), "invariant preserved: "+cl.Text)
+				}
+				if lc.Decreases != nil {
+					dec1 := fx.evalClauseValue(back, fx.entry, lc.Decreases, bindAt(back)).Tm
+					fx.assert(back, tag+"/decreases", "", ts.And(ts.Ge(dec0, ts.Int(0)), ts.Lt(dec1, dec0)), s, propsOr(lc.Decreases.Props, fx.props), "variant decreases and is bounded: "+lc.Decreases.Text)
+				}
 			}
-			if lc.Decreases != nil {
-				dec1 := fx.evalClauseValue(back, fx.entry, lc.Decreases, bindAt(back)).Tm
-				fx.assert(back, tag+"/decreases", "", ts.And(ts.Ge(dec0, ts.Int(0)), ts.Lt(dec1, dec0)), s, propsOr(lc.Decreases.Props, fx.props), "variant decreases and is bounded: "+lc.Decreases.Text)
-			}
+			fx.boundaryCheck(back, s, tag+"/head-pres")
 		}
-		fx.boundaryCheck(back, s, tag+"/head-pres")
+		fx.caseLabel = savedLabel
 	}
 	// 5. exit
 	exits := append([]*State{exitSt}, jf.breaks...)
@@ -731,7 +754,17 @@ func (fx *fctx) execFor(st *State, s *ast.ForStmt) *State {
 		}
 		return fx.evalBool(h, s.Cond)
 	}
-	body := func(b *State) *State { return fx.execBlock(b, s.Body.List) }
+	body := func(b *State) *State {
+		saved := fx.tailSwitch
+		if n := len(s.Body.List); n > 0 {
+			if sw, ok := s.Body.List[n-1].(*ast.SwitchStmt); ok && fx.isDispatchSwitch(sw) {
+				fx.tailSwitch = sw
+			}
+		}
+		r := fx.execBlock(b, s.Body.List)
+		fx.tailSwitch = saved
+		return r
+	}
 	var post func(*State) *State
 	if s.Post != nil {
 		post = func(b *State) *State { return fx.exec(b, s.Post) }
@@ -855,6 +888,7 @@ func (fx *fctx) execSwitch(st *State, s *ast.SwitchStmt) *State {
 	clauses := s.Body.List
 	// isMainDispatch: switch over code.T inside evaluate gets per-case obligation names
 	labelCases := fx.isDispatchSwitch(s)
+	split := s == fx.tailSwitch && len(fx.jumps) >= 2 && fx.jumps[len(fx.jumps)-2].isLoop
 	conds := make([]*Term, len(clauses))
 	for i, c := range clauses {
 		cc := c.(*ast.CaseClause)
@@ -898,6 +932,17 @@ func (fx *fctx) execSwitch(st *State, s *ast.SwitchStmt) *State {
 			fall = b
 			return
 		}
+		if split && !b.dead {
+			// the dispatch switch ends the loop body: each case reaches the back edge on its own
+			lbl := "default"
+			if len(cc.List) > 0 {
+				lbl = e.exprStr(cc.List[0])
+			}
+			b.label = lbl
+			lf := fx.jumps[len(fx.jumps)-2]
+			lf.conts = append(lf.conts, b)
+			return
+		}
 		outs = append(outs, b)
 	}
 	for i, c := range clauses {
@@ -916,6 +961,10 @@ func (fx *fctx) execSwitch(st *State, s *ast.SwitchStmt) *State {
 	}
 	if defaultClause != nil {
 		runBody(defaultIdx, defaultClause, noneMatched)
+	} else if split && !noneMatched.dead {
+		noneMatched.label = "no-case"
+		lf := fx.jumps[len(fx.jumps)-2]
+		lf.conts = append(lf.conts, noneMatched)
 	} else {
 		outs = append(outs, noneMatched)
 	}
@@ -924,6 +973,7 @@ func (fx *fctx) execSwitch(st *State, s *ast.SwitchStmt) *State {
 	}
 	fx.jumps = fx.jumps[:len(fx.jumps)-1]
 	outs = append(outs, jf.breaks...)
+	fx.settleDirty(outs, s)
 	return e.merge(outs)
 }
 
@@ -936,4 +986,36 @@ func (fx *fctx) isDispatchSwitch(s *ast.SwitchStmt) bool {
 		return true
 	}
 	return false
+}
+
+// settleDirty: objects written on only some of the paths about to be merged get their invariant
+// re-established on those paths (after the merge the obligation could not be stated precisely).
+func (fx *fctx) settleDirty(states []*State, n ast.Node) {
+	var live []*State
+	for _, s := range states {
+		if s != nil && !s.dead {
+			live = append(live, s)
+		}
+	}
+	if len(live) < 2 {
+		return
+	}
+	same := true
+	for _, s := range live[1:] {
+		if len(s.dirty) != len(live[0].dirty) {
+			same = false
+			break
+		}
+		for i := range s.dirty {
+			if s.dirty[i] != live[0].dirty[i] {
+				same = false
+			}
+		}
+	}
+	if same {
+		return
+	}
+	for _, s := range live {
+		fx.boundaryCheck(s, n, "join")
+	}
 }
